@@ -22,6 +22,11 @@ CLAIMED = {
             "score/argmax are max/argmax of the table terms (z3, LRA), support/coverage, threshold monotonicity "
             "(product run) and equality with an independent greedy executed in the same path on tie-free paths",
             "4.C07"),
+    "C09": ("CircularBinarySegmentation with a table local anomaly score of free reals: per candidate the reported "
+            "score / inner interval are max / argmax over the admissible inner intervals (z3, LRA), greedy selection "
+            "with overlap removal equals an independent reference on tie-free paths, support / coverage and threshold "
+            "monotonicity (product run)",
+            "4.C09"),
 }
 PENDING = {}
 TITLES = {}
